@@ -1,6 +1,5 @@
 (* Non-vacuity: concrete instances (tied weights) on which the hypotheses of the C01 / C15
-   theorems hold, with the computed forests; and a witness that semi-supervised training with
-   an empty unlabeled set differs from supervised training on the [n_label] field. *)
+   theorems hold, with the computed forests. *)
 From Coq Require Import List Arith Bool ZArith Lia ZifyBool Permutation.
 From OPF Require Import Base.Lists Model.Heap Model.Sup Spec.Paths Proofs.FitBase Proofs.Fit
   Proofs.FitSup Proofs.Semi.
@@ -85,28 +84,16 @@ Proof.
   - exists 0. split; [cbn; lia|]. vm_compute. reflexivity.
 Qed.
 
-(* With no unlabeled samples the two trainings agree on everything except [n_label]
-   (Semi.semi_empty_is_supervised); on [n_label] they can differ when weights are tied:
-   four points (2,1) (2,0) (0,1) (0,0) with labels 0 1 0 0 and squared Euclidean distances.
-   Sample 3 is conquered by the class-1 prototype 1 (tie 4 = 4 with the path through 2),
-   and the semi-supervised loop overwrites its true label. *)
+(* Former witness of the defect repaired in /repo (semi-supervised training used to overwrite
+   the true label of a labeled sample conquered by a prototype of another class): four points
+   (2,1) (2,0) (0,1) (0,0) with labels 0 1 0 0 and squared Euclidean distances.  Sample 3 is
+   still conquered by the class-1 prototype 1 (tie 4 = 4), but keeps its label. *)
 Definition ex3_labels : list nat := [0; 1; 0; 0].
 Definition ex3_m : list (list Z) := [[0;1;4;5]; [1;0;5;4]; [4;5;0;1]; [5;4;1;0]]%Z.
 Definition ex3_w (p q : nat) : Z := nth q (nth p ex3_m []) 0%Z.
 
-Lemma semi_empty_label_differs :
-  exists (labels : list nat) (w : nat -> nat -> Z),
-    (forall p q, w p q = w q p) /\
-    (forall p q, p < length labels -> q < length labels -> p <> q -> (0 <= w p q < 1000)%Z) /\
-    n_label (sup_fit Z.ltb 0%Z 1000%Z labels w) = labels /\
-    n_label (semi_fit Z.ltb 0%Z 1000%Z labels 0 w) <> labels.
-Proof.
-  exists ex3_labels, ex3_w. split; [|split; [|split]].
-  - intros p q. do 5 (destruct p as [|p]; [do 5 (destruct q as [|q]; [reflexivity|]);
-      unfold ex3_w; cbn; destruct q; reflexivity|]).
-    unfold ex3_w. cbn [ex3_m nth].
-    do 5 (destruct q as [|q]; [reflexivity|]). cbn. destruct p, q; reflexivity.
-  - apply w_ok_sound. vm_compute. reflexivity.
-  - vm_compute. reflexivity.
-  - vm_compute. discriminate.
-Qed.
+Example ex3_labels_kept :
+  n_plabel (semi_fit Z.ltb 0%Z 1000%Z ex3_labels 0 ex3_w) = [0; 1; 0; 1] /\
+  n_label (semi_fit Z.ltb 0%Z 1000%Z ex3_labels 0 ex3_w) = ex3_labels /\
+  semi_fit Z.ltb 0%Z 1000%Z ex3_labels 0 ex3_w = sup_fit Z.ltb 0%Z 1000%Z ex3_labels ex3_w.
+Proof. vm_compute. repeat split; reflexivity. Qed.
